@@ -260,6 +260,13 @@ def run_property(pid, tier="quick", seed=0, jobs=None, extra=None):
     extra = dict(extra or {})
     from .props import PROPS
 
+    if PROPS[pid].get("lemmas"):
+        from . import lemmas
+
+        recs = lemmas.prove_all()
+        results.append({"key": "lemmas:fold", "obligations": [dict(r, path="-", kind="lemma", detail=r["statement"], label=r["name"]) for r in recs],
+                        "paths": 0, "paths_by_outcome": {}, "requires_sat": "sat", "notes": [], "inlined": [], "hyp": [], "file": "/verif/pyvc/lemmas.py", "span": None, "sha": None, "seconds": sum(r["seconds"] for r in recs)})
+
     bmod = PROPS[pid].get("bounded")
     if bmod:
         # bounded stand-ins: labelled bounded, reported separately, never counted as proved obligations
